@@ -409,6 +409,50 @@ def build(chk):
         cases.append({"tag": f"dateadd:{unit}:{mshape}", "task": task, "line": f"rewrite\tdateadd\t{unit}\t{mshape}", "x": x,
                       "judge": ("dateadd", unit, n, base)})
 
+    # ---- one-parameter NUMBER(p) / DECIMAL(p) / NUMERIC(p): scale 0, precision p (values of p and p+1 digits) -------------
+    for p_ in (1, 2, 5, 9, 10, 18, 19, 37):
+        for digits in (p_, p_ + 1):
+            v = ("9" * digits) if digits < 39 else "1" * 38
+            for neg in ("", "-"):
+                for tyname in ("number", "decimal", "numeric"):
+                    fits_p = digits <= p_
+                    for x, want in ((f"'{neg}{v}'::{tyname}({p_})", f"D{neg}{v}" if fits_p else "E:conv"),
+                                    (f"cast('{neg}{v}' as {tyname}({p_}))", f"D{neg}{v}" if fits_p else "E:conv"),
+                                    (f"try_cast('{neg}{v}' as {tyname}({p_}))", f"D{neg}{v}" if fits_p else "N")):
+                        if quick and rnd.random() < 0.6:
+                            continue
+                        cases.append({"tag": "decimal:one-parameter", "task": ("expr", (x, ["select", "describe"] + rnd.sample(CONTEXTS[1:], 1))), "line": f"rewrite\tdecdesc\t{p_}\t0",
+                                      "x": x, "judge": ("decdesc", want)})
+    for x, want in [("'12.5'::number(5)", "D13"), ("'123456'::number(5)", "E:conv"), ("try_cast('123456' as number(5))", "N"), ("'12345'::number(5)", "D12345")]:
+        cases.append({"tag": "decimal:one-parameter", "task": ("expr", (x, CONTEXTS + ["describe"])), "line": "rewrite\tdecdesc\t5\t0", "x": x, "judge": ("decdesc", want)})
+    cases.append({"tag": "decimal:one-parameter:column", "x": "create table np (a number(3)); insert into np values (1000000)",
+                  "task": ("stmts", ["create or replace table np_t (a number(3), b decimal(5), c numeric(2))", "insert into np_t values (999, 99999, 99)", "select a, b, c from np_t",
+                                     "insert into np_t values (1000000, 1, 1)", "insert into np_t values (1, 1, 100)", "select count(*) from np_t"]),
+                  "line": None, "judge": ("stmts_exact", [None, "I1", "D999,D99999,D99", "E:conv", "E:conv", "I1"])})
+
+    # ---- rewritten functions nested one level deep in themselves and in each other -----------------------------------------
+    nested = [("regexp_replace(regexp_replace('aaa bbb', 'a', 'x'), 'b', 'y')", "Sxxx yyy"), ("regexp_replace(regexp_replace('aaa bbb', 'a', 'x', 1, 1), 'b', 'y')", "REJECTED_OR:Sxaa yyy"),
+              ("regexp_replace(regexp_replace('aaa bbb', 'a'), 'b')", "S "), ("regexp_substr(regexp_replace('aaa bbb', 'a', 'x'), 'x+')", "Sxxx"),
+              ("regexp_replace(regexp_substr('abc abd', 'ab.', 1, 2), 'b', 'X')", "SaXd"), ("regexp_substr(regexp_substr('abc abd abe', 'ab. ab.', 1, 1), 'ab.', 1, 2)", "Sabd"),
+              ("trim(regexp_replace(' aaa ', 'a', 'x'))", "Sxxx"), ("regexp_replace(trim('  aaa  '), 'a', 'x')", "Sxxx"), ("to_number(regexp_replace('1a2a', 'a', ''))", "D12"),
+              ("to_number(trim(' 12 '))", "D12"), ("to_decimal(regexp_substr('x 12.5 y', '[0-9.]+'), 10, 1)", "D12.5"), ("split(regexp_replace('a,a', 'a', 'b'), ',')", 'S["b","b"]'),
+              ("regexp_replace(upper(regexp_replace('aaa', 'a', 'b')), 'B', 'c')", "Sccc"), ("sha2(trim(' abc '))", "S" + hashlib.sha256(b"abc").hexdigest()),
+              ("sha2(regexp_replace('aXbXc', 'X', ''))", "S" + hashlib.sha256(b"abc").hexdigest()), ("equal_null(regexp_replace('aa', 'a', 'b'), 'bb')", "B1"),
+              ("equal_null(to_number('2.5'), to_number('3'))", "B1"), ("to_number(to_number('2.5'))", "D3"), ("to_number(to_decimal('12.34', 10, 2), 10, 1)", "REJECTED_OR:D12.3"),
+              ("datediff(day, dateadd(day, 1, '2023-01-31'::date), '2023-02-05'::date)", "I4"), ("datediff(month, to_date('2023-01-31'), dateadd(month, 2, '2023-01-31'::date))", "I2"),
+              ("dateadd(day, 1, to_date('2023-01-31'))", "d2023-02-01"), ("dateadd(day, 1, dateadd(hour, 1, '2023-01-31 23:30:00'))", "t2023-02-02 00:30:00"),
+              ("dateadd(month, 1, dateadd(month, 1, '2023-01-31 10:00:00'::timestamp))", "t2023-03-28 10:00:00"), ("dateadd(day, 1, to_timestamp(1700000000, 0))", "t2023-11-15 22:13:20"),
+              ("to_date(dateadd(day, 1, '2023-01-31 10:00:00'::timestamp))", "d2023-02-01"), ("datediff(day, to_timestamp(0), to_timestamp(86400, 0))", "I1"),
+              ("regexp_replace(regexp_replace($$a1b2$$, $$\\d$$, ''), 'b', 'c')", "Sac")]
+    for x, want in nested:
+        cases.append({"tag": "nested-rewrites", "task": ("expr", (x, CONTEXTS)), "line": None, "x": x, "judge": ("fixed", want, None, None)})
+    cases.append({"tag": "nested-rewrites", "task": ("expr", ("dateadd(day, 1, dateadd(month, 1, '2023-01-31'::date))", ["select", "cte"])), "line": None,
+                  "x": "dateadd(day, 1, dateadd(month, 1, '2023-01-31'::date))", "judge": ("fixed", "d2023-03-01", "t2023-03-01 00:00:00", "C10/dateadd-date-expression")})
+    cases.append({"tag": "nested-rewrites:dml", "x": "update … set s = regexp_replace(regexp_replace(s, 'a', 'x'), 'b', 'y')",
+                  "task": ("stmts", ["create or replace table nr_t (s varchar)", "insert into nr_t values ('aaa bbb')", "update nr_t set s = regexp_replace(regexp_replace(s, 'a', 'x'), 'b', 'y')",
+                                     "select s from nr_t", "create or replace view nr_v as select regexp_replace(regexp_replace(s, 'x', 'a'), 'y', 'b') as r from nr_t", "select r from nr_v"]),
+                  "line": None, "judge": ("stmts_exact", [None, "I1", None, "Sxxx yyy", None, "Saaa bbb"])})
+
     # ---- TO_TIMESTAMP / TO_TIMESTAMP_NTZ of integers (epoch seconds / scaled) ------------------------------------
     fracs = {None: (0, 0), 0: (0, 0), 3: (123, 123000), 6: (123456, 123456), 9: (123456000, 123456)}
     for fn in ("to_timestamp", "to_timestamp_ntz"):
@@ -463,6 +507,25 @@ def build(chk):
                           (f"with c as (select * from values ({row})) select column{n} from c", f"I{(n - 1) * 7}")):
             cases.append({"tag": "values", "x": sql, "task": ("stmts", [sql]), "line": f"rewrite\tvalues\t{n}\t1\t0",
                           "judge": ("values", n, want, sql)})
+
+    nn_all = [n for n, _ in NUMS if n is not None]
+    vj = [("select n, column2 from nums join values (1, 'one'), (2, 'two') on n = column1 order by n", "I1,Sone|I2,Stwo"),
+          ("select n, column2 from nums inner join (values (1, 'one'), (2, 'two')) on nums.n = column1 order by n", "I1,Sone|I2,Stwo"),
+          ("select n, column2 from nums left join (values (1, 'one')) on n = column1 where n < 3 order by n", "I1,Sone|I2,N"),
+          ("select n, column1 from nums, (values (7)) where n = column1", "I7,I7"),
+          ("select n, column1 from nums cross join (values (7)) where n = 1", "I1,I7"),
+          ("select column1, column2 from (values (1, 'a'), (2, 'b')) order by column1 desc", "I2,Sb|I1,Sa"),
+          ("with c as (select n, column2 as w from nums join (values (3, 'three')) on n = column1) select n, w from c", "I3,Sthree"),
+          ("select n from nums where n in (select column1 from values (2), (4)) order by n", "I2|I4"),
+          ("select (select column2 from values (5, 'five')) as w", "Sfive"),
+          ("select g, column2 from nums join (values ('a', 10), ('d', 40)) on g = column1 where n is not null order by n", "Sa,I10|Sa,I10|Sd,I40"),
+          ]
+    for sql, want in vj:
+        cases.append({"tag": "values:join-positions", "x": sql, "task": ("query", [sql]), "line": None, "judge": ("query_fixed", want)})
+    cases.append({"tag": "values:insert-select", "x": "insert into … select n, column2 from nums join values (..) on n = column1",
+                  "task": ("stmts", ["create or replace table vj_t (n int, w varchar)", "insert into vj_t select n, column2 from nums join values (1, 'one'), (2, 'two') on n = column1",
+                                     "select n, w from vj_t order by n", "insert into vj_t select column1, column2 from values (9, 'nine')", "select count(*) from vj_t"]),
+                  "line": None, "judge": ("stmts_exact", [None, "I2", "I1,Sone|I2,Stwo", "I1", "I3"])})
 
     # ---- RANDOM ------------------------------------------------------------------------------------
     seeds = [0, 1, 42, 2147483647, 3221225470, 123456789] + [rnd.randint(0, 2**31 - 1) for _ in range(4 if quick else 40)]
@@ -811,6 +874,14 @@ def judge(chk, case, real, rep):
     c = dict(cinfo, observed=res)
     chk.case((case["x"],), nontrivial=True)
     chk.count(tag)
+    if k == "stmts_exact":
+        want = case["judge"][1]
+        bad = [(i, w, g) for i, (w, g) in enumerate(zip(want, res)) if w is not None and w != g]
+        if bad or len(res) != len(want):
+            i, w, g = bad[0] if bad else (len(res), "…", "missing")
+            chk.violation(f"`{case['x']}`: statement #{i + 1} `{case['task'][1][i] if i < len(case['task'][1]) else ''}` gave {g!r}, documented {w!r}; all results {res}", c,
+                          broken=f"C10 correspondence ({tag})")
+        return
     if k == "stmts_last":
         _, spec, impl, key = case["judge"]
         if res[-1] == spec:
